@@ -198,7 +198,6 @@ def elaborate(case):
         cm = pyrtl.conditional_assignment(defaults=defaults)
     else:
         cm = pyrtl.conditional_assignment
-        cm.defaults = {}
     with cm:
         rec(forest)
     # observe
@@ -296,6 +295,9 @@ def cases(tier, seed):
                                                                                       else ['const', 'in'])) for k in amap}
         out.append({'shape': to_json(sh), 'targets': [{'kind': kind, 'name': 't0'}], 'assign': {'t0': amap}, 'K': 2,
                     'rhs': {'t0': rhs}})
+    out.append({'k': 'two_blocks', 'same_dict': True})
+    out.append({'k': 'two_blocks', 'same_dict': False})
+    out.append({'k': 'two_blocks', 'same_dict': False, 'second_defaults': False})
     for sh in shapes5:
         n = 5
         reps = 1 if tier == 'quick' else 24
@@ -319,6 +321,8 @@ def bounds(tier):
 
 
 def site_of(case):
+    if case.get('k') == 'two_blocks':
+        return 'C07:two-blocks'
     kinds = '+'.join(sorted(set(t['kind'] for t in case['targets'])))
     post = any(v == 'post' for a in case['assign'].values() for v in a.values())
     return 'C07:%s%s%s' % (kinds, ':post-nested' if post else '', ':shared-pred' if case.get('shared') else '')
@@ -352,8 +356,65 @@ def overlap_possible(case):
     return False
 
 
+def build_two_blocks(case):
+    """two conditional_assignment blocks in one design; `same_dict`: both are given the SAME defaults dict object"""
+    pyrtl.reset_working_block()
+    p0, p1 = pyrtl.Input(1, 'p0'), pyrtl.Input(1, 'p1')
+    x, y, z = pyrtl.Input(DW, 'x'), pyrtl.Input(DW, 'y'), pyrtl.Input(DW, 'z')
+    o1, o2 = pyrtl.WireVector(DW, 'o1'), pyrtl.WireVector(DW, 'o2')
+    r = pyrtl.Register(DW, 'r')
+    d1, d2, dr = pyrtl.Input(DW, 'd1'), pyrtl.Input(DW, 'd2'), pyrtl.Input(DW, 'dr')
+    table = {o1: d1, o2: d2, r: dr}
+    first = table if case['same_dict'] else dict(table)
+    second = table if case['same_dict'] else ({o2: d2, r: dr} if case.get('second_defaults', True) else None)
+    with pyrtl.conditional_assignment(defaults=first):
+        with p0:
+            o1 |= x
+    if second is None:
+        cm = pyrtl.conditional_assignment       # a plain block: no defaults, whatever the previous block was given
+    else:
+        cm = pyrtl.conditional_assignment(defaults=second)
+    with cm:
+        with p1:
+            o2 |= y
+            r.next |= z
+    for n, w in (('oo1', o1), ('oo2', o2), ('or', r)):
+        o = pyrtl.Output(DW, n)
+        o <<= w
+    return pyrtl.working_block(), second is not None
+
+
+def run_two_blocks(case, ob, site):
+    try:
+        block, has2 = build_two_blocks(case)
+    except Exception as e:
+        return ob.fact('two-blocks-elaborate', False, site + ':raises', detail=repr(e))
+    ob.fact('conditional-state-reset-after-block', C._depth == 0 and C._conditions_list_stack == [[]], site + ':state-leak')
+    K = 2
+    v = Vars()
+    with sym_env([block]):
+        rs = run_sim(block, K, v, reg_init='sym', mem_init='sym', track='io')
+    ob.paths += len(rs)
+    for r_ in rs:
+        if r_.exc is not None:
+            ob.prove('no-exception', z3.Not(r_.cond()), [], v, site=site + ':exception')
+            continue
+        goals = []
+        cur = v.reg('r', DW)
+        for t in range(K):
+            i = lambda n, w=DW: v.inp(n, t, w)
+            goals.append(('o1@%d' % t, to_bv(r_.trace['oo1'][t], DW) == z3.If(i('p0', 1) == 1, i('x'), i('d1')), site + ':value'))
+            goals.append(('o2@%d' % t, to_bv(r_.trace['oo2'][t], DW) == z3.If(i('p1', 1) == 1, i('y'), i('d2') if has2 else z3.BitVecVal(0, DW)),
+                          site + ':value'))
+            goals.append(('r@%d' % t, to_bv(r_.trace['or'][t], DW) == cur, site + ':value'))
+            cur = z3.If(i('p1', 1) == 1, i('z'), i('dr') if has2 else cur)
+        ob.prove_all(goals, r_.pc, v)
+
+
 def run_case(case, ob, tier):
     site = site_of(case)
+    if case.get('k') == 'two_blocks':
+        return run_two_blocks(case, ob, 'C07:two-blocks:%s' % ('same-defaults-object' if case['same_dict'] else 'separate-defaults'))
     overlap = overlap_possible(case)
     try:
         block, targets = elaborate(case)
@@ -428,6 +489,22 @@ def run_case(case, ob, tier):
 
 def replay(cex):
     case = cex['case']
+    if case.get('k') == 'two_blocks':
+        from ..core import Obligations
+        from .. import concrete
+        block, has2 = build_two_blocks(case)
+        mv = cex.get('model', {})
+        trace, _, sim = concrete.sim_concrete(block, 2, mv, reg_init='sym', mem_init='sym', track='io')
+        bad = []
+        cur = mv.get('regs', {}).get('r', 0)
+        for t in range(2):
+            g = lambda n: (lambda x: x.get(str(t), x.get(t, 0)))(mv.get('inputs', {}).get(n, {}))
+            exp = {'oo1': g('x') if g('p0') else g('d1'), 'oo2': g('y') if g('p1') else (g('d2') if has2 else 0), 'or': cur}
+            for n, e in exp.items():
+                if trace[n][t] != e:
+                    bad.append('cycle %d: %s = %d, expected %d' % (t, n, trace[n][t], e))
+            cur = g('z') if g('p1') else (g('dr') if has2 else cur)
+        return bool(bad), 'two conditional blocks (%r): %s' % (case, '; '.join(bad[:6]))
     overlap = overlap_possible(case)
     try:
         block, targets = elaborate(case)
